@@ -41,7 +41,8 @@ func c17(p *P) {
 				cmpRel("last certificate is the header's latest (not below)", lastInst, hdrLatest, RelLT),
 				cmpRel("last certificate is the header's latest (not above)", lastInst, hdrLatest, RelGT),
 			)
-			// final CID check (the last checkPowerTable, outside the loop)
+			// CID checks: through a helper proven below (checkPowerTable) or written inline
+			// (MakePowerTableCID must succeed, and its CID must equal the certificate's commitment)
 			var finalChk, loopChk []ssa.Value
 			for _, cs := range callsTo(imp, false, "certstore.checkPowerTable") {
 				if inLoop(cs.Instr) {
@@ -59,7 +60,33 @@ func c17(p *P) {
 					return out
 				}}
 			}
-			p.guarded("C17.R1", imp, acc, mk("final power table matches the last certificate's commitment", finalChk))
+			where := func(vm VM, loop bool, name string) VM {
+				return VM{Name: name, Match: func(f *ssa.Function) map[ssa.Value]AV {
+					out := map[ssa.Value]AV{}
+					for k, v := range vm.Match(f) {
+						if in, ok := k.(ssa.Instruction); ok && inLoop(in) == loop {
+							out[k] = v
+						}
+					}
+					return out
+				}}
+			}
+			trackedCID := `certs\.MakePowerTableCID\(certs\.PowerTableMapToArray\(`
+			inlineErr := errFails("", "certs.MakePowerTableCID", trackedCID)
+			inlineNE := cmpRel("", `^`+trackedCID+`.*#0$`, `SupplementalData\.PowerTable$`, RelNE)
+			finalName, loopName := "final power table matches the last certificate's commitment", "checkpoint table matches the certificate's commitment"
+			var finalGuards, loopGuards []VM
+			if len(finalChk) > 0 {
+				finalGuards = []VM{mk(finalName, finalChk)}
+			} else {
+				finalGuards = []VM{where(inlineErr, false, finalName+" (CID computable)"), where(inlineNE, false, finalName)}
+			}
+			if len(loopChk) > 0 {
+				loopGuards = []VM{mk(loopName, loopChk)}
+			} else {
+				loopGuards = []VM{where(inlineErr, true, loopName+" (CID computable)"), where(inlineNE, true, loopName)}
+			}
+			p.guarded("C17.R1", imp, acc, finalGuards...)
 			// manifest checks
 			withM := func(v VM, name string) VM {
 				u := v.with(VM{Match: func(f *ssa.Function) map[ssa.Value]AV { return map[ssa.Value]AV{f.Params[3]: avNonNil} }})
@@ -81,10 +108,10 @@ func c17(p *P) {
 			)
 			p.guardedAfter("C17.R1", imp, acc,
 				errFails("delta applies", "certs.ApplyPowerTableDiffsToMap", ""),
-				mk("checkpoint table matches the certificate's commitment", loopChk),
 				errFails("checkpoint stored", "certstore.Store.putPowerTable", ""),
 				errFails("certificate stored", "iface:Datastore.Put", `keyForCert`),
 			)
+			p.guardedAfter("C17.R1", imp, acc, loopGuards...)
 			// every block must be checked: the contiguity comparison dominates the certificate write
 			p.guarded("C17.R1", imp, certW, cmpRel("contiguity check on every block", idx, certInst, RelLT))
 			// ---- R2
@@ -110,7 +137,7 @@ func c17(p *P) {
 		}
 		p.checkpointWriter("C17.R4", imp)
 	}
-	if fn := p.fn("C17.R1", "certstore.checkPowerTable"); fn != nil {
+	if fn := p.c.Fn("certstore.checkPowerTable"); fn != nil {
 		p.guarded("C17.R1", fn, okReturns(fn), errFails("CID computable", "certs.MakePowerTableCID", ""), cmpRel("CID equal", `^certs\.MakePowerTableCID\(\$0\)#0$`, `^\$1$`, RelNE))
 	}
 
